@@ -32,6 +32,7 @@ inductive Err
   | leaf      -- "invalid script tree leaf: not a (leaf version, script) pair"    (_tree_helper)
   | vtype     -- BTClibTypeError "invalid leaf version type"  (_tree_helper / leaf_hash: not an int, or a bool)
   | stype     -- BTClibTypeError "invalid tapscript type"     (taproot.serialize: the script is not a list)
+  | deep      -- "a script tree supports at most 128 nesting levels"  (_subtree_helper: depth > MAX_TREE_DEPTH)
   | codec     -- a list in script position that is not given as `PyVal.cmds`: what `taproot.serialize` answers for it
               -- is the script codec's business, outside this model (never produced by the harness)
   deriving DecidableEq, Repr
@@ -40,6 +41,7 @@ def Err.name : Err → String
   | .toolong => "toolong" | .badlen => "badlen" | .tweak => "tweak" | .key => "key"
   | .missing => "missing" | .index => "index" | .prv => "prv" | .version => "version"
   | .node => "node" | .leaf => "leaf" | .vtype => "vtype" | .stype => "stype" | .codec => "codec"
+  | .deep => "deep"
 
 /-- a script tree: `[(version, script)]` is a leaf, `[left, right]` a branch -/
 inductive Tree where
@@ -317,19 +319,30 @@ def PyVal.toLeaf : PyVal → Except Err Tree
   | .cmds 2 _ => .error .vtype      -- `[["OP_1", "OP_2"]]`: a 2-sequence whose first half is a str
   | _ => .error .leaf
 
-/-- the guards of `tree_helper` / `_tree_helper`, in the order the code meets them (left subtree wholly before the
-    right one): the `Tree` a Python value is read as, or the first refusal -/
-def PyVal.toTree : PyVal → Except Err Tree
-  | .one _ x => x.toLeaf
+/-- `_subtree_helper(script_tree, depth)`: the guards in the order the code meets them — the depth guard
+    (`depth > MAX_TREE_DEPTH`) FIRST, then the node shapes, then the left subtree wholly before the right one, each one
+    level down: the `Tree` a Python value is read as, or the first refusal -/
+def PyVal.toTreeAt (d : Nat) : PyVal → Except Err Tree
+  | .one _ x => if d > MAX_TREE_DEPTH then .error .deep else x.toLeaf
   | .two _ l r =>
-    match l.toTree with
+    if d > MAX_TREE_DEPTH then .error .deep else
+    match l.toTreeAt (d + 1) with
     | .error e => .error e
     | .ok tl =>
-      match r.toTree with
+      match r.toTreeAt (d + 1) with
       | .error e => .error e
       | .ok tr => .ok (.node tl tr)
-  | .cmds 1 _ => .error .leaf       -- `["OP_1"]`: one element, and it is no pair
-  | _ => .error .node               -- not a list/tuple, or 0 / 3+ elements; `cmds 2 _` recurses into a command
+  | .cmds 1 _ => if d > MAX_TREE_DEPTH then .error .deep else .error .leaf   -- `["OP_1"]`: one element, and it is no pair
+  | _ => if d > MAX_TREE_DEPTH then .error .deep else .error .node
+      -- not a list/tuple, or 0 / 3+ elements; `cmds 2 _` recurses into a command
+
+/-- `tree_helper(script_tree) = _subtree_helper(script_tree, 0)` -/
+def PyVal.toTree (v : PyVal) : Except Err Tree := v.toTreeAt 0
+
+/-- a `Tree` as a Python value (nodes as lists or tuples, scripts as lists of `n` commands) -/
+def Tree.toPy (l : Bool) (n : Nat) : Tree → PyVal
+  | .leaf v s => .one l (.two (!l) (.int v) (.cmds n s))
+  | .node x y => .two l (x.toPy l n) (y.toPy l n)
 
 /-- the PUBLIC `tree_helper(script_tree)` -/
 def treeHelperPy (H : TagHash) (v : PyVal) : Except Err (List LeafInfo × Bytes) :=
